@@ -4,11 +4,21 @@
 # usage: selftest/seeded.sh <id> [quick|thorough|both]
 cd "$(dirname "$0")/.."
 id=$1; tiers=${2:-quick}; [ "$tiers" = both ] && tiers="quick thorough"
-d=seeded/$id
+d=$PWD/seeded/$id
 prop=$(jq -r .property $d/meta.json)
-[ -z "$(git -C /repo status --porcelain)" ] || { echo "/repo is not clean"; exit 2; }
-git -C /repo apply $d/patch.diff || { echo "patch does not apply"; exit 2; }
-trap 'git -C /repo checkout -- . ; git -C /repo clean -fdq' EXIT
+# evaluation happens in a scratch worktree of /repo (so that /repo itself, which background sweeps
+# build from, is never touched); pass REPO=1 to apply the patch to /repo itself instead
+if [ -n "${REPO:-}" ]; then
+  [ -z "$(git -C /repo status --porcelain)" ] || { echo "/repo is not clean"; exit 2; }
+  git -C /repo apply $d/patch.diff || { echo "patch does not apply"; exit 2; }
+  trap 'git -C /repo checkout -- . ; git -C /repo clean -fdq' EXIT
+else
+  W=/tmp/seedrun-$id-$$
+  git -C /repo worktree add -q --detach $W HEAD || exit 2
+  trap 'git -C /repo worktree remove --force $W 2>/dev/null; rm -rf $W' EXIT
+  git -C $W apply $d/patch.diff || { echo "patch does not apply"; exit 2; }
+  export VERIF_REPO=$W
+fi
 for tier in $tiers; do
   t0=$(date +%s)
   out=$(VERIF_KF_ALWAYS=${KF:-} ./run $prop $tier 2>&1); code=$?
